@@ -9,7 +9,7 @@
      objR A b s        1/2 s^T A s - b^T s
      sym_mat, pos_def  A symmetric, x^T A x > 0 for x <> 0                                              *)
 From Coq Require Import ZArith List Bool Reals Lra Lia QArith.
-From PAV Require Import Base.Res Base.Check Base.NumOps Base.Sum Model.C05 Model.C05Chol Proofs.C05 Proofs.C05Chol.
+From PAV Require Import Base.Res Base.Check Base.NumOps Base.Sum Model.C05 Model.C05Chol Proofs.C05 Proofs.C05Chol Proofs.C05Cert.
 Import ListNotations.
 Local Open Scope R_scope.
 
@@ -56,6 +56,21 @@ Proof. exact positive_only_stationary. Qed.
 Theorem C05_positive_only_raises_only_inversion_exception : forall A b (eps : R) uses_p_initial fuel e,
   @reconstruction_positive_only ROps fuel A b eps uses_p_initial = Raise e -> e = InversionException.
 Proof. exact positive_only_raises_inversion_exception. Qed.
+
+(* ---- soundness of the executable certificate, independent of the solver model: what passing [kkt_ok] means for the vector the
+   IMPLEMENTATION returned, whichever way its loop was left (vocabulary, Proofs/C05Cert.v:  KKTa A b s tol  =  s >= 0, |gradient| <= tol
+   where s_i > 0, gradient >= -tol where s_i = 0) ---- *)
+Theorem C05_kkt_certificate_sound : forall A b d (tol : R), @kkt_ok ROps A b d tol = true -> KKTa A b d tol.
+Proof. exact kkt_ok_sound. Qed.
+Theorem C05_certified_output_is_minimiser : forall n A b d (tol : R) y,
+  wf n A b -> sym_mat n A -> pos_def n A -> 0 <= tol -> @kkt_ok ROps A b d tol = true ->
+  length y = n -> (forall i, (i < n)%nat -> 0 <= nth i y 0) ->
+  objR A b d - tol * (sumR y + sumR d) <= objR A b y.
+Proof. exact certified_output_is_minimiser. Qed.
+(* the early-exit failure (a zero entry whose gradient is below -tol) can never pass *)
+Theorem C05_certificate_rejects_negative_gradient : forall A b d (tol : R) i,
+  (i < length b)%nat -> nth i d 0 = 0 -> gradR A b d i < - tol -> @kkt_ok ROps A b d tol = false.
+Proof. exact certificate_rejects_negative_gradient. Qed.
 
 (* ---- KKT => minimiser of 1/2 s^T A s - b^T s over s >= 0 (up to tau * sum y), unique when tau = 0 ---- *)
 Theorem C05_kkt_implies_minimiser : forall n A b d (tau : R) y,
@@ -197,6 +212,14 @@ Proof.
   split; [reflexivity|]. intros i Hi. assert (Ei : i = 0%nat \/ i = 1%nat) by (cbn in Hi; lia).
   destruct Ei as [-> | ->]; unfold gradR, dotR, exA, exb, exd; cbn; repeat split; intros; lra.
 Qed.
+Example C05_ex_certificate_accepts : @kkt_ok ROps exA exb exd 0 = true.
+Proof. apply C05_kkt_certificate_accepts; [lra|exact C05_ex_kkt]. Qed.
+(* the vector a solver returns if it leaves before its first iteration: gradient -1 on the zero entry 0, rejected with tol = 1/2 *)
+Example C05_ex_early_exit_rejected : @kkt_ok ROps exA exb [0; 0] (/ 2) = false.
+Proof.
+  apply (C05_certificate_rejects_negative_gradient exA exb [0; 0] (/ 2) 0%nat); [cbn; lia|reflexivity|].
+  unfold gradR, dotR, exA, exb. cbn. lra.
+Qed.
 (* the model executed AT THE REALS on this system (symbolic evaluation, every comparison decided by lra): the hypothesis
    `fnnls ... = Ok (d, ExitCond, P)` of the KKT theorems is met, cold start and production warm start, and d = (1/2, 0) *)
 Example C05_ex_fnnls_cold_R :
@@ -304,3 +327,6 @@ Print Assumptions C05_cholupdate_rank_one.
 Print Assumptions C05_cholinsertlast_contract.
 Print Assumptions C05_choldeleteindexes_contract.
 Print Assumptions C05_descending_deletion_is_simultaneous.
+Print Assumptions C05_kkt_certificate_sound.
+Print Assumptions C05_certified_output_is_minimiser.
+Print Assumptions C05_certificate_rejects_negative_gradient.
